@@ -7,7 +7,7 @@ import random
 from coqemit import cbool, clist, cnat, copt, cpair, cstr, cstrlist, outcome
 
 ID = "C03"
-FACTS = ["Conflicts"]
+FACTS = ["Conflicts", "ConflictsSrc"]
 COQ_HEADER = "From SPV Require Import CorrDefs.CorrC03."
 COQ_CASE_TYPE = "case"
 RULE = ("forests of dataclass trees over the name alphabet {a, bb, cc, x} (field names may equal destination names; the same class "
